@@ -92,6 +92,9 @@ impl Decimal {
 // Decimal::one() = 10^18 atomics, Decimal::zero() = 0; `-` aborts on underflow, `+` on overflow (checked arithmetic of cosmwasm-std 1.x)
 impl Decimal {
     #[verifier::external_body] pub fn one() -> (r: Decimal) ensures r.0 as nat == dd() { unimplemented!() }
+    // Decimal::percent(x) = x / 100, Decimal::permille(x) = x / 1000 (exact in 18 digits)
+    #[verifier::external_body] pub fn percent(x: u64) -> (r: Decimal) ensures r.0 as nat == (x as nat) * 10_000_000_000_000_000nat { unimplemented!() }
+    #[verifier::external_body] pub fn permille(x: u64) -> (r: Decimal) ensures r.0 as nat == (x as nat) * 1_000_000_000_000_000nat { unimplemented!() }
     #[verifier::external_body] pub fn zero() -> (r: Decimal) ensures r.0 == 0 { unimplemented!() }
     #[verifier::external_body] pub fn is_zero(&self) -> (r: bool) ensures r == (self.0 == 0) { unimplemented!() }
 }
